@@ -8,6 +8,7 @@ import ast as pyast
 import random
 
 from .. import harness
+from ..gen import valid
 from ..oracles import ebnf
 
 ID = 'C06'
@@ -255,7 +256,7 @@ def realize(label, rng, T):
     if label == 'NAME':
         return (T.NAME, rng.choice(NAMES))
     if label == 'NUMBER':
-        return (T.NUMBER, rng.choice(NUMBERS))
+        return (T.NUMBER, rng.choice(NUMBERS) if rng.random() < .5 else valid.valid_number(rng))
     if label == 'STRING':
         return (T.STRING, rng.choice(STRINGS))
     if label == 'FSTRING_STRING':
@@ -622,6 +623,17 @@ def judge_derivation(ctx, v, g, G, start, d, rng, dbg=False):
     if got != want:
         # tokenizer always ends the last logical line: NEWLINE absent only if derivation has none
         ctx.count('text_mode_out_of_domain')
+        if got is not None:
+            k = next((i for i, (a, b) in enumerate(zip(got, want)) if a != b), min(len(got), len(want)))
+            ga = got[k] if k < len(got) else None
+            wa = want[k] if k < len(want) else None
+            ctx.observe('ood_first_difference', '%s %r -> %s %r' % (wa and wa[0].name, wa and wa[1][:12], ga and ga[0].name, ga and ga[1][:12]))
+            # "token sequences the tokenizer can produce" excludes layouts (bare NEWLINE statements, '<>', text inside f-strings), not
+            # spellings: a valid name/number/string outside an f-string that does not come back as that one token makes the text
+            # unparsable as derived
+            if wa is not None and wa[0].name in ('NUMBER', 'STRING', 'NAME') and not any(t.name == 'FSTRING_START' for t, _ in want[:k]):
+                ctx.violation('spelling_not_one_token', 'text mode: %s %r of the derivation is tokenized as %s %r in %r' % (
+                    wa[0].name, wa[1], ga and ga[0].name, ga and ga[1], src[:120]), dict(w, text=src), mode='text')
         if lossless is False:
             # the domain restriction ("token sequences the tokenizer can produce") presupposes a tokenizer that keeps the text
             ctx.violation('tokenizer_not_lossless', 'text mode: prefix+string of the tokens of %r do not spell the text' % (src[:160],),
